@@ -87,9 +87,22 @@ def driver_exe():
     return os.path.join(LEAN, ".lake", "build", "bin", "stirdriver")
 
 
+def dev_mode():
+    """VERIF_DEV=1: a property under development that is not yet wired into lean/Driver/Main.lean and
+    lean/StirVerif.lean: build only its own modules and run its driver with the interpreter
+    (lean/Driver/Run<Cxx>.lean = `import Driver.<Cxx>` + `def main := Driver.<Cxx>.main`)."""
+    return os.environ.get("VERIF_DEV", "") == "1"
+
+
 def run_driver(prop, opsfile, outfile, args=()):
+    if dev_mode():
+        cmd = ["lake", "env", "lean", "--run", os.path.join("Driver", "Run%s.lean" % prop)] + list(args)
+        cwd = LEAN
+    else:
+        cmd = [driver_exe(), prop] + list(args)
+        cwd = None
     with open(opsfile) as fin, open(outfile, "w") as fout:
-        r = subprocess.run([driver_exe(), prop] + list(args), stdin=fin, stdout=fout, stderr=subprocess.PIPE, text=True)
+        r = subprocess.run(cmd, stdin=fin, stdout=fout, stderr=subprocess.PIPE, text=True, cwd=cwd)
     return r.returncode, r.stderr
 
 
@@ -248,7 +261,10 @@ def proof_coverage(chk, audit, checker_cmd, trusted_extra=()):
 
 def lean_gate(chk, prop):
     """Build Lean + audit; on failure report a violation without failing input (caller may search)."""
-    ok, out = lean_build()
+    if dev_mode():
+        ok, out = lean_build(targets=("StirVerif.%s.Props" % prop, "Driver.%s" % prop))
+    else:
+        ok, out = lean_build()
     if not ok:
         chk.violation("lean-build", "Lean library does not build: a proof obligation or the driver no longer checks",
                       out[-4000:], found_input=False)
